@@ -492,6 +492,11 @@ func (e *Engine) resolveIntrinsic(fn *ssa.Function, fi *fnInfo) intrinsicFn {
 			return noopIntrinsic
 		}
 		return func(in *Interp, fn *ssa.Function, args []Value, caller *frame, site ssa.Instruction) (Value, bool) {
+			if pkg == "time" && in.eng.inInit && fn.Name() == "Now" && fn.Signature.Recv() == nil {
+				// package-level `var started = time.Now()` of an interpreted library (gopher-lua's os library): the value
+				// is only read by code the harnesses do not reach
+				return zero(fn.Signature.Results().At(0).Type()), true
+			}
 			if pkg == "reflect" && in.eng.inInit {
 				// package-level `var t = reflect.TypeFor[T]()` of interpreted libraries (encoding/xml): the value is only
 				// used by the reflection-based Marshal/Unmarshal paths, which stay unsupported when reached
